@@ -321,8 +321,21 @@ fn strip_loc(e: &str) -> String {
     out.lines().next().unwrap_or("").to_string()
 }
 
-fn run_src(src: &str) -> RunRes {
-    let mut env = Uiua::with_backend(SafeSys::new()).with_execution_limit(Duration::from_millis(1500));
+/// errors that depend on the machine's load or limits, not on the program: such a run decides nothing
+fn resource_error(e: &str) -> bool {
+    let l = e.to_lowercase();
+    ["maximum execution time", "execution time", "too large", "out of memory", "memory", "allocation", "stack overflow", "capacity overflow", "timed out"].iter().any(|k| l.contains(k))
+}
+
+impl RunRes {
+    fn inconclusive(&self) -> bool {
+        !self.ok && resource_error(&self.err)
+    }
+}
+
+fn run_src_limit(src: &str, millis: u64) -> RunRes {
+    // sandboxed backend: no file, network or process access; &fwa, &fmkd ... fail instead of writing
+    let mut env = Uiua::with_backend(SafeSys::new()).with_execution_limit(Duration::from_millis(millis));
     let res = quiet(|| env.run_str(src).map(|_| ()).map_err(|e| e.to_string()));
     let stack: Vec<String> = env.take_stack().iter().map(|v| format!("{:?}|{:?}|{}", v.shape, v.type_name(), v.show())).collect();
     let stdout = env.downcast_backend::<SafeSys>().map(|s| String::from_utf8_lossy(&s.take_stdout()).into_owned()).unwrap_or_default();
@@ -331,6 +344,49 @@ fn run_src(src: &str) -> RunRes {
         Ok(Err(e)) => RunRes { ok: false, stack, stdout, err: strip_loc(&e) },
         Err(p) => RunRes { ok: false, stack, stdout, err: format!("PANIC: {p}") },
     }
+}
+
+fn run_src(src: &str) -> RunRes {
+    run_src_limit(src, 1500)
+}
+
+/// confirmation runs happen one at a time (no competition between this harness's own threads) with a longer limit
+static RERUN: std::sync::Mutex<()> = std::sync::Mutex::new(());
+
+#[derive(PartialEq, Debug)]
+enum RunCmp {
+    Same,
+    Inconclusive,
+    Nondeterministic,
+    Differ(String),
+}
+
+/// compare two first runs; a difference is reported only after both programs were run again, sequentially,
+/// reproduced their own first result, and neither run ended on a resource limit
+fn compare_runs(src: &str, f1: &str, ra: &RunRes, rb: &RunRes) -> RunCmp {
+    if !ra.inconclusive() && !rb.inconclusive() && ra == rb {
+        return RunCmp::Same;
+    }
+    let _g = RERUN.lock().unwrap_or_else(|e| e.into_inner());
+    let a2 = run_src_limit(src, 6000);
+    let b2 = run_src_limit(f1, 6000);
+    if a2.inconclusive() || b2.inconclusive() {
+        return RunCmp::Inconclusive;
+    }
+    if a2 == b2 {
+        // the first difference was a resource limit or nondeterminism
+        return if ra.inconclusive() || rb.inconclusive() { RunCmp::Same } else { RunCmp::Nondeterministic };
+    }
+    // the programs must reproduce themselves
+    let a3 = run_src_limit(src, 6000);
+    let b3 = run_src_limit(f1, 6000);
+    if a3.inconclusive() || b3.inconclusive() {
+        return RunCmp::Inconclusive;
+    }
+    if a3 != a2 || b3 != b2 {
+        return RunCmp::Nondeterministic;
+    }
+    RunCmp::Differ(format!("results differ (confirmed by two sequential re-runs): {:?} vs {:?}", short(&format!("{a2:?}"), 300), short(&format!("{b2:?}"), 300)))
 }
 
 struct Ctx {
@@ -388,7 +444,7 @@ fn first_diff(a: &str, b: &str) -> String {
 }
 
 /// all checks of one (source, configuration); `only` restricts to one kind (used by the shrinker)
-fn check(ctx: &mut Ctx, src: &str, cfg: &Cfg, only: Option<&str>, stats: Option<&mut Stats>) -> Vec<Viol> {
+fn check(ctx: &mut Ctx, src: &str, cfg: &Cfg, only: Option<&str>, mut stats: Option<&mut Stats>) -> Vec<Viol> {
     let mut v = Vec::new();
     let want = |k: &str| only.is_none() || only == Some(k);
     let f1 = match fmt(src, cfg) {
@@ -399,14 +455,14 @@ fn check(ctx: &mut Ctx, src: &str, cfg: &Cfg, only: Option<&str>, stats: Option<
             return v;
         }
         Ok(Err(_)) => {
-            if let Some(s) = stats {
+            if let Some(s) = stats.as_deref_mut() {
                 s.unparseable += 1;
             }
             return v;
         }
         Ok(Ok(f)) => f,
     };
-    if let Some(s) = stats {
+    if let Some(s) = stats.as_deref_mut() {
         s.formatted += 1;
         if f1 != src {
             s.changed += 1;
@@ -463,14 +519,18 @@ fn check(ctx: &mut Ctx, src: &str, cfg: &Cfg, only: Option<&str>, stats: Option<
     }
     // (iv) same results and output
     if let (Some(ra), Some(rb)) = (&a.run, &b.run) {
-        if ra != rb && want("run") {
-            // nondeterministic programs (random numbers, clocks) are excluded: the source must reproduce itself
-            let again = run_src(src);
-            if &again == ra {
-                let again_b = run_src(&f1);
-                if &again_b == rb {
-                    v.push(Viol { kind: "run", detail: format!("results differ: {:?} vs {:?}", short(&format!("{ra:?}"), 300), short(&format!("{rb:?}"), 300)) });
+        if want("run") {
+            let c = compare_runs(src, &f1, ra, rb);
+            if let Some(s) = stats.as_deref_mut() {
+                s.run_compared += 1;
+                match &c {
+                    RunCmp::Inconclusive => s.run_inconclusive += 1,
+                    RunCmp::Nondeterministic => s.run_nondeterministic += 1,
+                    _ => {}
                 }
+            }
+            if let RunCmp::Differ(d) = c {
+                v.push(Viol { kind: "run", detail: d });
             }
         }
     }
@@ -487,6 +547,9 @@ struct Stats {
     by_kind: BTreeMap<String, usize>,
     n_compile: usize,
     n_run: usize,
+    run_compared: usize,
+    run_inconclusive: usize,
+    run_nondeterministic: usize,
     sources: usize,
     features: BTreeMap<&'static str, usize>,
 }
@@ -499,6 +562,9 @@ impl Stats {
         self.changed += o.changed;
         self.n_compile += o.n_compile;
         self.n_run += o.n_run;
+        self.run_compared += o.run_compared;
+        self.run_inconclusive += o.run_inconclusive;
+        self.run_nondeterministic += o.run_nondeterministic;
         self.sources += o.sources;
         for (k, v) in &o.by_cat {
             *self.by_cat.entry(k.clone()).or_default() += v;
@@ -1850,7 +1916,7 @@ fn search(n: usize, seed: u64) {
         ctx.trim();
     }
     println!(
-        "{{\"summary\":true,\"sources\":{},\"configs\":{},\"evaluations\":{},\"formatted\":{},\"unparseable\":{},\"changed_by_format\":{},\"compiled_texts\":{},\"run_texts\":{},\"by_cat\":{},\"violation_runs\":{},\"violation_keys\":{},\"features\":{}}}",
+        "{{\"summary\":true,\"sources\":{},\"configs\":{},\"evaluations\":{},\"formatted\":{},\"unparseable\":{},\"changed_by_format\":{},\"compiled_texts\":{},\"run_texts\":{},\"run_comparisons\":{},\"run_inconclusive_resource_limit\":{},\"run_nondeterministic\":{},\"by_cat\":{},\"violation_runs\":{},\"violation_keys\":{},\"features\":{}}}",
         stats.sources,
         cfgs.len(),
         stats.evaluations,
@@ -1859,6 +1925,9 @@ fn search(n: usize, seed: u64) {
         stats.changed,
         stats.n_compile,
         stats.n_run,
+        stats.run_compared,
+        stats.run_inconclusive,
+        stats.run_nondeterministic,
         serde_json::to_string(&stats.by_cat).unwrap(),
         serde_json::to_string(&stats.by_kind).unwrap(),
         serde_json::to_string(&counts).unwrap(),
